@@ -58,7 +58,7 @@ def _attribute(case_desc, pure, devrun):
 
 
 def o_eval(case):
-    prog_tokens = case["prog"]
+    prog_tokens = A.resolve_ctx(case["prog"], case)
     flags = case["flags"]
     sv = case["sigversion"]
     n_in = case.get("n_in", 0)
